@@ -53,6 +53,11 @@ def per_test(suite):
                 continue
             rendered = []
             for a in st.assertions:
+                if type(a).__name__ == "ExceptionAssertion":
+                    # rendered by the exporter as `with pytest.raises(X):` around the statement, or (for an
+                    # undeclared exception) as the xfail(strict=True) mark of the whole test function
+                    rendered.append(f"<exception:{a.exception_type_name}>")
+                    continue
                 try:
                     rendered.append(norm(cst.Module(body=[assertion_to_cst(a)]).code))
                 except Exception as exc:  # noqa: BLE001
@@ -64,12 +69,17 @@ def per_test(suite):
 
 def functions_of(text):
     """{index: [normalised body lines]} of the exported file."""
-    funcs, cur = {}, None
+    funcs, cur, marks = {}, None, []
     for line in text.splitlines():
+        if line.startswith("@"):
+            marks.append(line)
         m = re.match(r"^def test_(\d+)\(", line)
         if m:
             cur = int(m.group(1))
             funcs[cur] = []
+            if any("xfail" in d for d in marks):
+                funcs[cur].append("<xfail>")
+            marks = []
         elif cur is not None and (line.startswith("    ") or not line.strip()):
             if line.strip():
                 funcs[cur].append(norm(line))
@@ -79,6 +89,8 @@ def functions_of(text):
 
 
 def kind_of(assert_code):
+    if assert_code.startswith("<exception:"):
+        return "exception"
     for k in ("isinstance", "pytest.approx", "len(", "__name__", " is ", "=="):
         if k in assert_code:
             return {"isinstance": "isinstance", "pytest.approx": "float", "len(": "length",
@@ -171,7 +183,11 @@ def shard(col, module, mode, pop_bound, limit, pairs):
                         where = [i for i, l in enumerate(body) if l in (code, strip_binding(code))
                                  or l.endswith(code) or l.endswith(strip_binding(code))]
                         for a in asserts:
-                            ok = any(a in body[i + 1:i + 1 + len(asserts) + 2] for i in where)
+                            if a.startswith("<exception:"):
+                                ok = "<xfail>" in body or any(
+                                    i > 0 and body[i - 1].startswith("with pytest.raises(") for i in where)
+                            else:
+                                ok = any(a in body[i + 1:i + 1 + len(asserts) + 2] for i in where)
                             if not ok:
                                 present = a in body
                                 col.violation(
